@@ -123,7 +123,10 @@ pub fn c15_specs(thorough: bool) -> Vec<Op> {
     for &elem in elems {
         for cap in [255u8, 0] {
             for end in [MutEnd::Finalise, MutEnd::Drop, MutEnd::Unwind] {
-                v.push(Op::MutColl(MutSpec { kind: MutKind::TryWithMut, elem, cap, pushes: 1, extra: MutExtra::None, end }));
+                // extra = Reserve(1): the error type is larger than the value
+                for extra in [MutExtra::None, MutExtra::Reserve(1)] {
+                    v.push(Op::MutColl(MutSpec { kind: MutKind::TryWithMut, elem, cap, pushes: 1, extra, end }));
+                }
             }
         }
     }
@@ -523,6 +526,13 @@ pub fn spaces_mode<'a>(prop: &'a str, mode: Mode, deadline: Instant, threads: us
                 al(3, 1),
                 al(1000, 8),
                 al(5000, 64),
+                // the layouts of the with_capacity constructors below (first op: must fit without another chunk),
+                // including zero-sized over-aligned ones
+                al(1, 1),
+                al(100, 64),
+                al(5000, 4096),
+                al(0, 4096),
+                al(0, 64),
                 Op::Typed { op: TypedOp::SliceU64(100), try_: true },
                 Op::Typed { op: TypedOp::SizedA32, try_: false },
                 Op::Typed { op: TypedOp::AllocSliceCopyU8(500), try_: false },
@@ -540,7 +550,7 @@ pub fn spaces_mode<'a>(prop: &'a str, mode: Mode, deadline: Instant, threads: us
                 d(3, 4),
                 params(
                     &[Handle::Direct, Handle::Dyn],
-                    &[Ctor::TryNew, Ctor::Unallocated, Ctor::TryWithCapacity(1, 1), Ctor::TryWithCapacity(100, 64), Ctor::TryWithCapacity(5000, 4096), Ctor::TryWithSize(0), Ctor::TryWithSize(3000)],
+                    &[Ctor::TryNew, Ctor::Unallocated, Ctor::TryWithCapacity(1, 1), Ctor::TryWithCapacity(100, 64), Ctor::TryWithCapacity(5000, 4096), Ctor::TryWithCapacity(0, 4096), Ctor::TryWithCapacity(0, 64), Ctor::TryWithSize(0), Ctor::TryWithSize(3000)],
                     &[z, og, og2],
                 ),
                 FaultMode::None,
